@@ -1,6 +1,7 @@
 //@@ include prelude/head.rs
 use std::collections::{HashMap, VecDeque};
 use std::sync::Arc;
+//@@ include prelude/cmp.rs
 verus! {
 //@@ item src/error.rs FerrousError
 //@@ item src/error.rs CommandError
